@@ -266,5 +266,15 @@ func runWire(k *hcase, in string) (res result) {
 	if !k.disk {
 		res.tokens = append(res.tokens, "C:"+Hx(sg.VerifCurrentBytes()))
 	}
+	// Stream.Close closes the muxer, the generator and the playlist: nothing may be left behind
+	s.Close()
+	if n := len(pl.VerifSegments()); n != 0 {
+		goFind("storage-not-cleaned-on-close", fmt.Sprintf("%d segments still listed after Stream.Close", n), "0")
+	}
+	if k.disk {
+		if des, _ := ioutil.ReadDir(segPath); len(des) != 0 {
+			goFind("storage-not-cleaned-on-close", fmt.Sprintf("%d files left after Stream.Close", len(des)), "0")
+		}
+	}
 	return
 }
